@@ -11,6 +11,7 @@ import (
 	"encoding/json"
 	"flag"
 	"fmt"
+	"strings"
 	"sync"
 	"time"
 
@@ -273,6 +274,12 @@ func negClientCase(l negLine, variant int, res *hx.Result) {
 	}
 	sc := make(chan sres, 1)
 	go func() {
+		defer func() {
+			if pv := recover(); pv != nil {
+				res.Violate("C10", "client-panics-on-rversion:"+sig, fmt.Sprintf("the server answers msize %d: setting up the client session panics: %v", a, pv), rep)
+				sc <- sres{nil, fmt.Errorf("panic: %v", pv)}
+			}
+		}()
 		s, err := p9p.CSession(bg, cli)
 		sc <- sres{s, err}
 	}()
@@ -289,7 +296,9 @@ func negClientCase(l negLine, variant int, res *hx.Result) {
 	raw.WriteFcall(bg, &p9p.Fcall{Type: p9p.Rversion, Tag: p9p.NOTAG, Message: p9p.MessageRversion{MSize: a, Version: "9P2000"}})
 	r := <-sc
 	if r.err != nil {
-		res.Violate("C10", "client-session-failed:"+sig, r.err.Error(), rep)
+		if !strings.HasPrefix(r.err.Error(), "panic:") {
+			res.Violate("C10", "client-session-failed:"+sig, r.err.Error(), rep)
+		}
 		return
 	}
 	ms, _ := r.s.Version()
